@@ -50,7 +50,12 @@ type segGen struct {
 
 type nameAlloc struct{ n int }
 
-func (a *nameAlloc) next() string { a.n++; return fmt.Sprintf("p%d", a.n) }
+// next returns a fresh bind name. Any identifier of the route grammar is a legal name: besides letters and digits
+// that is - . _ ~ @ ! $ & ' ( ) * + ; % = (the names "route" and "withOptional" collide with reserved words: D14).
+func (a *nameAlloc) next() string {
+	a.n++
+	return fmt.Sprintf([]string{"p%d", "p%d", "p%d", "user-id%d", "file.ext%d", "x_%d", "a*%d", "~t%d", "$v%d", "k=%d", "(g%d)", "q+%d;"}[(a.n*7+a.n/3)%12], a.n)
+}
 
 func pick(r *rand.Rand, s []string) string { return s[r.Intn(len(s))] }
 
